@@ -121,7 +121,12 @@ func genPlugin(rt *rapid.T, types []string) PluginElem {
 	case "gzip":
 		p.Typ = pick(rt, "typ", types...)
 		p.A = pick(rt, "level", 1, 5, 6, 9)
-		p.B = pick(rt, "min_size", 256, 1024, 4096)
+		p.B = pick(rt, "min_size", 256, 1024, 4096, 0, 1, 100000, 1000000, 1048576, 2500000, 10485760)
+	}
+	// a float-typed number is written "5.0" or, in one case of three, the way YAML writers spell floats from a
+	// certain magnitude on: with an exponent ("1.048576e+06")
+	if p.Typ == "float" && rapid.IntRange(0, 2).Draw(rt, "float_exponent_spelling") == 0 {
+		p.Typ = "float-exp"
 	}
 	return p
 }
